@@ -31,6 +31,13 @@
 //	                             contributes (what a leaving session withdraws is ITS contribution)
 //
 // and the Loc-RIB client count is compared with the count that includes the other session's Adj-RIB-Out.
+//
+// Third block of cases: (a) before the session leaves, prefixes it had announced are announced AGAIN with a path
+// the eligibility rules hide (local AS in the AS_PATH, own ORIGINATOR_ID, own cluster id in the CLUSTER_LIST): the
+// Adj-RIB-In then only holds the hidden path, and the route learned first must be gone from the Loc-RIB after the
+// exit like every other one; (b) IPv6 is configured on bio-rd's side but the neighbour's OPEN offers no
+// multiprotocol capability for it (configured, not negotiated): whatever bio-rd attached for that family at
+// Established must be detached at the exit as well.
 package main
 
 import (
@@ -61,7 +68,13 @@ type ccase struct {
 	WritesOK int `json:"writes_ok,omitempty"`
 	// Other: a second session of another peer in the same VRF
 	Other *otherSpec `json:"other,omitempty"`
+	// Hide: the last UPDATEs announce already learned prefixes again with a path that is ineligible for this reason
+	// (as-loop | originator-id | cluster-loop); "" none
+	Hide string `json:"hide,omitempty"`
 }
+
+// routerID is bio-rd's router id in every case (also the cluster id of its route reflector client sessions).
+const routerID = 0x0a000001
 
 // otherSpec describes the second session: an iBGP peer of bio-rd under its own local AS.
 type otherSpec struct {
@@ -141,7 +154,7 @@ func hostile(cause string, o wire.Options) []byte {
 	return nil
 }
 
-func genUpdates(cfg sessgen.Cfg, n int, idx int) []sessgen.UpdSpec {
+func genUpdates(cfg sessgen.Cfg, n int, idx int, hide string) []sessgen.UpdSpec {
 	// deterministic, small: two or three UPDATEs with unique next hops; IPv6 through MP_REACH when configured
 	var out []sessgen.UpdSpec
 	mk := func(nh uint32) sessgen.AttrSpec {
@@ -163,14 +176,49 @@ func genUpdates(cfg sessgen.Cfg, n int, idx int) []sessgen.UpdSpec {
 	if cfg.V4MP {
 		out = append(out, sessgen.UpdSpec{MPR: []sessgen.NL{p4(172, 23, 0, 16)}, MPRv4: true, Attr: mk(2)})
 	}
-	if cfg.V6 {
+	if cfg.NegV6() {
 		out = append(out, sessgen.UpdSpec{MPR: []sessgen.NL{
 			{P: gen.P{Hi: 0x20010db800a00000, Len: 44}}, {P: gen.P{Hi: 0x20010db800b00000 | uint64(idx), Len: 64}}}, Attr: mk(3)})
 	}
 	if n > len(out) {
 		out = append(out, sessgen.UpdSpec{Ann: []sessgen.NL{p4(172, 24, 0, 16)}, Wd: []sessgen.NL{p4(172, 22, 128, 17)}, Attr: mk(4)})
 	}
+	if hide != "" {
+		// the same prefixes once more, now with a path bio-rd must not use: the implicit replacement leaves only the
+		// hidden path in the Adj-RIB-In
+		bad := func(nh uint32) sessgen.AttrSpec {
+			a := mk(nh)
+			switch hide {
+			case "as-loop":
+				a.Seq = append(a.Seq, sessgen.LocalAS, 64700+nh)
+			case "originator-id":
+				o := uint32(routerID)
+				a.OrigID, a.Cluster = &o, []uint32{0x05050505}
+			case "cluster-loop":
+				o := uint32(0x09090909)
+				a.OrigID, a.Cluster = &o, []uint32{0x05050505, routerID, 0x06060606}
+			}
+			return a
+		}
+		out = append(out, sessgen.UpdSpec{Ann: []sessgen.NL{p4(172, 21, 0, 16), p4(172, 20, byte(idx), 24)}, Attr: bad(5)})
+		if cfg.NegV6() {
+			out = append(out, sessgen.UpdSpec{MPR: []sessgen.NL{{P: gen.P{Hi: 0x20010db800a00000, Len: 44}}}, Attr: bad(6)})
+		}
+	}
 	return out
+}
+
+// hideReasons lists the ineligibility reasons that apply to a session kind (the local AS always contributes; the
+// router id is what ORIGINATOR_ID is compared with on internal sessions; bio-rd's cluster id only contributes while a
+// route reflector client session is up).
+func hideReasons(kind string) []string {
+	switch kind {
+	case "ebgp":
+		return []string{"as-loop"}
+	case "rr-client":
+		return []string{"cluster-loop", "as-loop", "originator-id"}
+	}
+	return []string{"originator-id", "as-loop"}
 }
 
 // exitPath names the handler of establishedState a cause ends in.
@@ -342,6 +390,9 @@ func runCase(idx int, raw json.RawMessage) (res batch.Result) {
 	fams := "ipv4"
 	if cfg.V6 {
 		fams = "ipv4+ipv6"
+		if cfg.OmitMPv6 {
+			fams = "ipv4+ipv6(configured, not negotiated)"
+		}
 	}
 	pr := &probe{res: &res}
 	// the feature that pins a defect is the FSM exit path the cause drives; cause, kind and chain are in the detail
@@ -355,7 +406,7 @@ func runCase(idx int, raw json.RawMessage) (res batch.Result) {
 		return vf.F("exit", exit)
 	}
 
-	srv := speaker.NewServer(speaker.ServerConfig{})
+	srv := speaker.NewServer(speaker.ServerConfig{RouterID: routerID})
 	srv.AddStatic(seedV4.Ptr(), bnet.IPv4FromOctets(192, 0, 2, 77))
 	if cfg.V6 {
 		srv.AddStatic(seedV6.Ptr(), bnet.IPv6(0x20010db800000000, 0x77))
@@ -471,7 +522,7 @@ func runCase(idx int, raw json.RawMessage) (res batch.Result) {
 				}
 			}
 			want := []string{gen.FromBio(seedV4.Ptr()).String()}
-			if cfg.V6 {
+			if cfg.NegV6() { // a family the neighbour did not offer cannot be advertised to it
 				want = append(want, gen.FromBio(seedV6.Ptr()).String())
 			}
 			for _, w := range want {
@@ -533,6 +584,26 @@ func runCase(idx int, raw json.RawMessage) (res batch.Result) {
 			res.Inconcl = fmt.Sprintf("established session is not attached as expected (contributing=%v clients=%d)", srv.VRF.IsContributingASN(sessgen.LocalAS), srv.ClientCount(true))
 			return
 		}
+		hiddenNow := 0
+		if c.Hide != "" {
+			for _, v4 := range []bool{true, false} {
+				if in, ok := s.RIBIn(v4); ok {
+					for _, v := range speaker.Views(in) {
+						if v.Hidden != 0 {
+							hiddenNow++
+						}
+					}
+				}
+			}
+			wantHidden := 2
+			if cfg.NegV6() {
+				wantHidden = 3
+			}
+			if hiddenNow != wantHidden {
+				res.Inconcl = fmt.Sprintf("the Adj-RIB-In holds %d hidden paths after the %s re-announcements, %d expected: the case does not exercise what it is meant to", hiddenNow, c.Hide, wantHidden)
+				return
+			}
+		}
 		rewritten := 0
 		for _, v := range learned {
 			if strings.Contains(v.Attrs, "64777") || strings.Contains(v.Attrs, "lp=777") {
@@ -552,12 +623,26 @@ func runCase(idx int, raw json.RawMessage) (res batch.Result) {
 			res.Count("exit_peer-gone_as_"+exit, 1)
 			res.Count(fmt.Sprintf("exit_peer-gone_hold%d_writes-ok%d_as_%s", cfg.Hold, c.WritesOK, exit), 1)
 		}
+		variant := ""
+		if c.Hide != "" {
+			res.Count("exits_after_hidden_reannouncement", 1)
+			res.Count("exits_after_hidden_reannouncement_"+c.Hide, 1)
+			res.Count("hidden_paths_in_adj_rib_in_at_exit", hiddenNow)
+			variant += "|reannounced-ineligible=" + c.Hide
+		}
+		if cfg.V6 && cfg.OmitMPv6 {
+			res.Count("exits_with_ipv6_configured_not_negotiated", 1)
+			variant += "|ipv6-not-negotiated"
+		}
 		if c.Other != nil {
 			res.Count("exits_with_other_session", 1)
 			res.Count("exits_with_other_session_"+c.Other.label(cfg.RRClient), 1)
-			res.Nontrivial = append(res.Nontrivial, fmt.Sprintf("%s|%s|%s|%s|rewritten=%v|other=%s", exit, cfg.Kind(), chain, fams, rewritten > 0, c.Other.label(cfg.RRClient)))
+			res.Nontrivial = append(res.Nontrivial, fmt.Sprintf("%s|%s|%s|%s|rewritten=%v|other=%s%s", exit, cfg.Kind(), chain, fams, rewritten > 0, c.Other.label(cfg.RRClient), variant))
 		} else {
-			res.Nontrivial = append(res.Nontrivial, fmt.Sprintf("%s|%s|%s|%s|rewritten=%v", exit, cfg.Kind(), chain, fams, rewritten > 0))
+			res.Nontrivial = append(res.Nontrivial, fmt.Sprintf("%s|%s|%s|%s|rewritten=%v%s", exit, cfg.Kind(), chain, fams, rewritten > 0, variant))
+		}
+		if c.Hide != "" {
+			pr.where += fmt.Sprintf(" [%d learned prefixes re-announced with an ineligible path (%s) before the exit]", hiddenNow, c.Hide)
 		}
 		pr.where += " after exit (" + how + ")"
 		if vs := fromPeer(srv, p.Addr); len(vs) > 0 {
@@ -681,8 +766,13 @@ func genCases(r *vf.Run) []any {
 							if cause == "peer-gone" && rng.IntN(2) == 0 {
 								cc.WritesOK = rng.IntN(5) // 0…2: a KEEPALIVE fails first; 4: the NOTIFICATION is still written
 							}
+							if rng.IntN(3) == 0 {
+								hr := hideReasons(kind)
+								cc.Hide = hr[rng.IntN(len(hr))]
+							}
+							cc.Cfg.OmitMPv6 = v6 && rng.IntN(4) == 0
 						}
-						cc.Updates = genUpdates(cc.Cfg, 3+i%2, i%200)
+						cc.Updates = genUpdates(cc.Cfg, 3+i%2, i%200, cc.Hide)
 						out = append(out, cc)
 						i++
 					}
@@ -714,10 +804,42 @@ func genCases(r *vf.Run) []any {
 					case "peer-gone":
 						cc.Cfg.Hold, cc.WritesOK = 3+i%2, 3
 					}
-					cc.Updates = genUpdates(cc.Cfg, 3+i%2, i%200)
+					cc.Updates = genUpdates(cc.Cfg, 3+i%2, i%200, "")
 					out = append(out, cc)
 					i++
 				}
+			}
+		}
+		// third block: learned prefixes announced again with an ineligible path before the exit, and IPv6 configured
+		// but not offered by the neighbour; every cause × kind once, the two variations alternating so that each
+		// cause sees both of them alone and together over the kinds and repetitions
+		for ci, cause := range causes {
+			for ki, kind := range []string{"ibgp", "ebgp", "rr-client"} {
+				hr := hideReasons(kind)
+				m := (ci + ki + rep) % 3 // 0: both, 1: re-announcement only (IPv6 negotiated), 2: not negotiated only
+				cfg := sessgen.Cfg{EBGP: kind == "ebgp", RRClient: kind == "rr-client", V4: true, V6: m != 1 || (ci+rep)%2 == 0, PeerAS4: true,
+					Import: []string{"accept", "set-lp", "prepend"}[(i+rep)%3]}
+				cfg.OmitMPv6 = m != 1
+				cc := ccase{Cfg: cfg, Cause: cause, Twice: (i+rep)%6 == 0}
+				if m != 2 {
+					cc.Hide = hr[(ci/3+rep)%len(hr)]
+				}
+				switch cause {
+				case "hold-timer":
+					cc.Cfg.Hold = 4
+				case "keepalive-send-failure":
+					cc.Cfg.Hold = 3
+				case "peer-gone":
+					cc.Cfg.Hold, cc.WritesOK = 3+i%2, 3
+				}
+				if rep > 0 {
+					rng := r.RandN("c07-third", i)
+					cc.Cfg.RecvV4, cc.Cfg.OfferV4 = rng.IntN(2) == 0, rng.IntN(2) == 0
+					cc.Cfg.RecvV6, cc.Cfg.OfferV6 = rng.IntN(2) == 0, rng.IntN(2) == 0
+				}
+				cc.Updates = genUpdates(cc.Cfg, 3+i%2, i%200, cc.Hide)
+				out = append(out, cc)
+				i++
 			}
 		}
 	}
@@ -730,7 +852,7 @@ func main() {
 		return
 	}
 	vf.Main("C07", "exploration", func(r *vf.Run) {
-		r.Rule("one session per case: exit cause {" + strings.Join(causes, ", ") + "} × import chain {accept, set LOCAL_PREF, prepend} × {iBGP, eBGP, RR client} × {IPv4, IPv4+IPv6 multiprotocol (every other one with IPv4 multiprotocol too)}; two static routes are seeded in the Loc-RIB; the session learns 3–4 UPDATEs (6–7 routes incl. a withdrawal), leaves Established by the cause, is checked, is established again over a new connection and checked again (every fifth case: torn down and established a third time). Cause peer-gone: the remote side falls silent and bio-rd's writes fail after k more writes (quick: k=3 with hold time 3 and 4 s, which makes the HoldTimeExpired NOTIFICATION the first refused write, on the keepalive timer's path and on the periodic check's path; thorough: k=0…4, so a KEEPALIVE is refused first or nothing is); the exit path really taken is read off the refused writes. Second block: every cause × kind with a second, silent session of another peer in the same VRF — same local AS, or another local AS registered later or earlier than the observed session's; RR clients alternately with the same and another cluster id — checked for being untouched whenever the observed session left, and finally torn down itself while the observed session stays. distinct_nontrivial = distinct (exit path, kind, chain, families, import policy rewrote the learned paths, other session) among sessions that had learned routes in the Loc-RIB and did leave Established")
+		r.Rule("one session per case: exit cause {" + strings.Join(causes, ", ") + "} × import chain {accept, set LOCAL_PREF, prepend} × {iBGP, eBGP, RR client} × {IPv4, IPv4+IPv6 multiprotocol (every other one with IPv4 multiprotocol too)}; two static routes are seeded in the Loc-RIB; the session learns 3–4 UPDATEs (6–7 routes incl. a withdrawal), leaves Established by the cause, is checked, is established again over a new connection and checked again (every fifth case: torn down and established a third time). Cause peer-gone: the remote side falls silent and bio-rd's writes fail after k more writes (quick: k=3 with hold time 3 and 4 s, which makes the HoldTimeExpired NOTIFICATION the first refused write, on the keepalive timer's path and on the periodic check's path; thorough: k=0…4, so a KEEPALIVE is refused first or nothing is); the exit path really taken is read off the refused writes. Second block: every cause × kind with a second, silent session of another peer in the same VRF — same local AS, or another local AS registered later or earlier than the observed session's; RR clients alternately with the same and another cluster id — checked for being untouched whenever the observed session left, and finally torn down itself while the observed session stays. Third block: every cause × kind once more with (a) two or three of the learned prefixes (IPv4, and IPv6 when negotiated) announced AGAIN right before the exit with a path the eligibility rules hide — the local AS in the AS_PATH (all kinds), bio-rd's router id as ORIGINATOR_ID (internal sessions), its cluster id in the CLUSTER_LIST (RR client sessions) — the case only counts when the Adj-RIB-In then holds exactly these hidden paths, and/or (b) IPv6 unicast configured on bio-rd's side while the neighbour's OPEN carries no multiprotocol capability for it (configured, not negotiated), where every clause (Loc-RIB client counts of both families, contributing AS / cluster id) is judged as before; thorough: a third of the first block's cases re-announce ineligibly and a quarter of its dual-stack cases do not negotiate IPv6. distinct_nontrivial = distinct (exit path, kind, chain, families, import policy rewrote the learned paths, other session) among sessions that had learned routes in the Loc-RIB and did leave Established")
 		r.Assume("'whenever it leaves': that a session must leave Established for a cause is not claimed; a case whose session stays up is inconclusive",
 			"synchronisation: FSM state published under fsm.stateMu ≠ established or connection closed by bio-rd, then the barrier event where an FSM loop is left to take it",
 			"exportable Loc-RIB routes = the seeded static routes (bio-rd redistributes them to every kind of peer)",
@@ -753,9 +875,15 @@ func main() {
 		if _, ok := r.Replaying(); !ok {
 			r.Require("exits", int64(len(cases)*8/10))
 			r.Require("reestablish_checks", int64(len(cases)*6/10))
-			nOther, nGone := 0, 0
+			nOther, nGone, nHide, nOmit := 0, 0, 0, 0
 			for _, c := range cases {
 				if cc, ok := c.(ccase); ok {
+					if cc.Hide != "" {
+						nHide++
+					}
+					if cc.Cfg.V6 && cc.Cfg.OmitMPv6 {
+						nOmit++
+					}
 					if cc.Other != nil {
 						nOther++
 					}
@@ -773,6 +901,12 @@ func main() {
 				}
 			}
 			r.Require("exit_peer-gone_as_hold-timer+notification-write-failure", int64(nGone/2))
+			r.Require("exits_after_hidden_reannouncement", int64(nHide*8/10))
+			r.Require("hidden_paths_in_adj_rib_in_at_exit", int64(nHide*2*8/10))
+			for _, k := range []string{"as-loop", "originator-id", "cluster-loop"} {
+				r.Require("exits_after_hidden_reannouncement_"+k, int64(nHide/12))
+			}
+			r.Require("exits_with_ipv6_configured_not_negotiated", int64(nOmit*8/10))
 		}
 	})
 }
